@@ -221,6 +221,51 @@ def gen_sx_case(r, maxlen, ctx=None):
     return out
 
 
+def gen_sx_near_case(r, maxlen, ctx=None):
+    """states next to the snapping thresholds of QpMcSimplexDecomp::updateVarsum (1e-12 / 1e-14, relative to C resp. absolute):
+    identity kernel, one variable driven by a dyadic linear term to alpha = C*(1 - 2^-t) (C - varsum in [1e-14 C, 1e-10 C)
+    and around) or to alpha = 2^-t around 1e-14; then an ordinary random history.  Ordinary dyadic data never get there."""
+    fam = r.choice(["WWCS", "ATMATS", "ADMLLW", "MMR"])
+    c = r.choice([2, 3, 4, 5]) if fam == "WWCS" else r.choice([2, 4])
+    P = FAMILY_P[fam](c)
+    md_num, md_sh = (1, 1) if (fam == "WWCS" or c == 2) else (3, 2)          # diagonal entry of M: 1/2 resp. 1 - 1/c
+    n = r.choice([1, 2, 3])
+    labels = [r.below(c) for _ in range(n)]; labels[n - 1] = c - 1
+    if fam != "WWCS" and fam != "MMR": pass
+    cnum, cshift = r.choice([(1, 0), (2, 0), (1, 1), (4, 0), (3, 0), (5, 1)])
+    lin = [1] * (n * P)
+    K = [[1 if i == j else 0 for j in range(n)] for i in range(n)]
+    ops = ["sbox %s %d %d %d %d %d %d %s" % (fam, c, n, cnum, cshift, 0 if r.chance(1, 4) else 1, 0,
+           " ".join(map(str, labels + lin + [K[i][j] for i in range(n) for j in range(n)])))]
+    # the M entry of variable (example 0, p) against itself is md only if ... use p = 0 of example 0
+    kind = r.choice(["upper", "upper", "lower"])
+    if kind == "upper":
+        t = r.range(33, 47)
+        S = md_sh + cshift + t
+        target = md_num * cnum * ((1 << t) - 1)                              # = Mdiag*C*(1-2^-t) * 2^S
+    else:
+        t = r.range(43, 51)
+        S = md_sh + t
+        target = md_num                                                      # = Mdiag*2^-t * 2^S
+    d = [0] * (n * P); d[0] = target - (1 << S)                               # the linear term starts at 1
+    ops.append("xadddeltas %d %s" % (S, " ".join(map(str, d))))
+    ops.append("xsmo 0 0")
+    tail = gen_sx_case(r, maxlen, None)[1:]
+    # keep only ops whose arguments fit this problem size
+    nv = n * P
+    for o in tail[: r.range(2, 12)]:
+        tk = o.split()
+        if tk[0] in ("xsmo",) and (int(tk[1]) >= nv or int(tk[2]) >= nv): continue
+        if tk[0] in ("xdeactvar",) and int(tk[1]) >= nv: continue
+        if tk[0] in ("xkillex", "xlabel") and int(tk[1]) >= n: continue
+        if tk[0] in ("xadddelta", "xbiasupd"): continue
+        ops.append(o)
+    ops.append(f"xsolve 1 {r.choice([10, 20])} {r.choice([3, 40, 3000])}")
+    if ctx is not None:
+        ctx.hist("sx_near_threshold", f"{kind}:2^-{t}")
+    return ops
+
+
 def split_line(l):
     """-> (main, side-channel dict, oracle tags)"""
     main, _, orc = l.partition(" !oracle")
@@ -734,6 +779,7 @@ def run(ctx):
         ctx.cov["evaluations"] += len(xcorp)
         correspond_box(ctx, "K-C16-simplex-corpus", xcorp, [exe], [drv])
     xcases = [gen_sx_case(rx, maxlen, ctx) for _ in range(500 if ctx.quick else 2500)]
+    xcases += [gen_sx_near_case(rx, maxlen, ctx) for _ in range(60 if ctx.quick else 400)]
     for c in xcases:
         for o in c: ctx.hist("sx_op_mix", o.split()[0])
     ctx.cov["evaluations"] += len(xcases)
